@@ -158,6 +158,7 @@ ZOO = {
     "cube": [(0, 1), (1, 2), (2, 3), (3, 0), (4, 5), (5, 6), (6, 7), (7, 4), (0, 4), (1, 5), (2, 6), (3, 7)],       # 48
     "prism": [(0, 1), (1, 2), (2, 0), (3, 4), (4, 5), (5, 3), (0, 3), (1, 4), (2, 5)],                                   # 12
     "two_triangles": [(0, 1), (1, 2), (2, 0), (3, 4), (4, 5), (5, 3)],                                                     # 72
+    "star6": [(0, i) for i in range(1, 7)],                                                                               # 720 (not regular: many self-maps)
 }
 
 
@@ -231,7 +232,8 @@ def generate(seed: int, tier: str = "quick") -> Dict[str, Any]:
         ops = []
         for i_, api in enumerate(rng.sample(["summary", "nontrivial", "iter", "detect"], 3)):
             ops.append({"op": "aut", "s": derive(seed, "op", i_), "which": rng.choice(["net", "twin"]), "flags": [False, True, False],
-                        "timeout": None, "max_count": 5000, "api": api, "reuse": rng.random() < 0.5, "bare": rng.random() < 0.5})
+                        "timeout": None, "max_count": 5000, "api": api, "reuse": rng.random() < 0.5, "bare": rng.random() < 0.5,
+                        "also_orbits": True})
         return {"cfg": cfg, "ops": ops}
     deep = tier == "thorough" and rng.random() < 0.4
     net = gen_net(rng, deep)
